@@ -338,6 +338,10 @@ impl SecondaryTransaction {
         if self.read_only {
             panic!("Txn is read-only but append is called");
         }
+        // nothing to write: do not create a RowSet, which can not be empty
+        if columns.cardinality() == 0 {
+            return Ok(());
+        }
         if self.mem.is_none() {
             let rowset_id = self.table.generate_rowset_id();
             let directory = self.table.get_rowset_path(rowset_id);
